@@ -322,6 +322,78 @@ c.ensures('frame[_s_mark]', lambda c: unchanged_field(
     c.pre, c.cur, '_s_mark', lambda o: member(c.pre, c.a.self, o)))
 
 
+# ------------------------------------------------------------------ Scheduler.check_cycles (nested)
+# True  => every scheduler of the subtree (self included) is acyclic   (schema over (s, U, w))
+# False => some scheduler of the subtree has a non-empty self-supporting set (witness from the path taken)
+def _s0(c):
+    return c.skolem('s0', lambda: fresh('s0', Ref))
+
+
+def _sub(x, m):
+    return Or(x == m, under(x, m))
+
+
+c = contract('Scheduler.check_cycles', 'scheduler.py').param('self').returns('bool')
+c.for_props('C15')
+c.requires('tree', lambda c: wf_tree(c.pre, c.a.self))
+c.requires('tree-axioms', lambda c: And(tree_axioms()))
+c.requires('closed', lambda c: closed(c.pre, c.a.self))
+c.requires('nested-closed', lambda c: (lambda s: ForAll([s], Implies(
+    And(under(s, c.a.self), isa['PureScheduler'](s)), closed(c.pre, s)), patterns=[under(s, c.a.self)]))(q()))
+c.modifies('_s_mark', '$ycount', '$ypos')
+c.decreases = lambda c: height(c.a.self)
+
+
+def _scc_true(c):
+    S = c.a.self
+    pre, res = c.pre, c.result
+    if c.mode != 'prove':
+        c.cur.g['tree-acyclic-schema'] = lambda s, U, w: Implies(
+            And(res, _sub(s, S), is_sched(s)), Not(self_supporting(pre, s, U, w)))
+        return z3.BoolVal(True)
+    sch = c.cur.g.get('acyclic-schema')      # normal exit of self.topological_order()
+    if sch is not None:
+        c.fact(sch(_U(c), _w(c)))
+    return Implies(And(res, _sub(_s0(c), S), is_sched(_s0(c))),
+                   Not(self_supporting(pre, _s0(c), _U(c), _w(c))))
+
+
+def _scc_false(c):
+    S = c.a.self
+    pre, res = c.pre, c.result
+    if c.mode != 'prove':
+        ws, wU = fresh('cyc_s', Ref), fresh('cyc_U', L.SetV)
+        c.cur.g['tree-cycle-witness'] = (ws, wU)
+        return Implies(Not(res), And(_sub(ws, S), is_sched(ws), self_supporting(pre, ws, wU)))
+    w = c.cur.g.get('tree-cycle-witness')
+    if w is None:
+        w = (S, c.cur.g.get('cycle-witness', fresh('Uc', L.SetV)))
+    return Implies(Not(res), And(_sub(w[0], S), is_sched(w[0]), self_supporting(pre, w[0], w[1])))
+
+
+c.ensures('true-implies-every-level-acyclic', _scc_true)
+c.ensures('false-implies-a-cycle-somewhere', _scc_false)
+# (when the answer is False the marks of the part already visited are whatever the aborted traversal left)
+c.ensures('frame[_s_mark]', lambda c: Implies(c.result, unchanged_field(
+    c.pre, c.cur, '_s_mark', lambda o: under(o, c.a.self))))
+
+
+def _scc_inv_nested(c):
+    m = q()
+    sch = c.cur.g.get('tree-acyclic-schema')      # the nested check_cycles() call of this iteration, if any
+    if sch is not None:
+        c.fact(sch(_s0(c), _U(c), _w(c)))
+    return ForAll([m], Implies(And(Select(c.visited, m), isa['Scheduler'](m), _sub(_s0(c), m), is_sched(_s0(c))),
+                               Not(self_supporting(c.pre, _s0(c), _U(c), _w(c)))),
+                  patterns=[Select(c.visited, m)])
+
+
+c.loop(0, inv=[
+    ('visited-nested-schedulers-acyclic', _scc_inv_nested),
+    ('frame[_s_mark]', lambda c: unchanged_field(c.pre, c.cur, '_s_mark', lambda o: under(o, c.a.self))),
+])
+
+
 # ------------------------------------------------------------------ entry_jobs / exit_jobs
 def ycount_delta(c, pred):
     """forall x. ycount'[x] = ycount[x] + (1 if pred(x) else 0)"""
